@@ -763,6 +763,24 @@ func NewCountAccumulator() Accumulator {
 	return &countAcc{0}
 }
 
+// cellIdentity returns a text that is the same for two cells exactly when they
+// hold the same value. It is the text of the cell, except that time anchors
+// are written in UTC: the same instant prints differently in different zones.
+func cellIdentity(c *Cell) string {
+	if c == nil {
+		return "<NULL>"
+	}
+	if c.T != nil {
+		return c.T.UTC().Format(time.RFC3339Nano)
+	}
+	if c.P != nil {
+		if ta, err := c.P.TimeAnchor(); err == nil {
+			return fmt.Sprintf("%q@[%s]", c.P.ID(), ta.UTC().Format(time.RFC3339Nano))
+		}
+	}
+	return c.String()
+}
+
 // countDistinctAcc implements an accumulator that count accumulation occurrences.
 type countDistinctAcc struct {
 	state map[string]int64
@@ -771,6 +789,9 @@ type countDistinctAcc struct {
 // Accumulate takes the given value and accumulates it to the current state.
 func (c *countDistinctAcc) Accumulate(v interface{}) (interface{}, error) {
 	vs := fmt.Sprintf("%v", v)
+	if cell, ok := v.(*Cell); ok {
+		vs = cellIdentity(cell)
+	}
 	c.state[vs]++
 	return int64(len(c.state)), nil
 }
@@ -977,7 +998,7 @@ func (t *Table) Reduce(cfg SortConfig, aaps []AliasAccPair) error {
 	id := func(r Row) string {
 		res := bytes.NewBufferString("")
 		for _, c := range cfg {
-			res.WriteString(r[c.Binding].String())
+			res.WriteString(cellIdentity(r[c.Binding]))
 			res.WriteString(";")
 		}
 		return res.String()
